@@ -684,13 +684,18 @@ class Replayer:
             self._write(self.res_w, data if data is not None else self.pickle.dumps(dict(harness="replay process died")))
 
     def replay(self, values, rand, slack, limit=None):
-        self._write(self.req_w, self.pickle.dumps((values, rand, slack, limit)))
+        # every replay has a wall-clock limit: real code that does not return (e.g. rejection sampling from an empty
+        # set) must not leave an orphaned process behind; without an explicit limit a hang is a harness problem
+        explicit = limit is not None
+        self._write(self.req_w, self.pickle.dumps((values, rand, slack, limit if explicit else REPLAY_LIMIT_S)))
         raw = self._read(self.res_r)
         if raw is None:
             raise RuntimeError("replayer died")
         out = self.pickle.loads(raw)
         if out.get("hang"):
-            return out
+            if explicit:
+                return out
+            raise RuntimeError("the real code did not return within %d s during a replay" % REPLAY_LIMIT_S)
         if "harness" in out:
             raise RuntimeError(out["harness"])
         if out["exc"] is not None:
@@ -712,6 +717,7 @@ class Replayer:
 
 _REPLAYER = [None]
 TERMINATION_LIMIT_S = 30
+REPLAY_LIMIT_S = 120
 
 
 def _has_nonfinite(o):
@@ -996,7 +1002,12 @@ def _run_case(case, cfg):
                                         break
                             except Exception:
                                 continue
-                rep["violations"].append(viol)
+                if viol.get("replay_hung") and not viol["reproduced"]:
+                    rep["sat"] -= 1
+                    rep["unknown"] += 1
+                    rep["inconclusive"].append(dict(path=pi, goal=gname, why="counterexample candidate could not be replayed: " + viol["detail"]))
+                else:
+                    rep["violations"].append(viol)
     n_live = sum(rep["path_status"].get(k, 0) for k in ("ok", "raised"))
     if n_live and not reached and not rep["gaps"] and rep["path_status"].get("vacuous", 0) >= n_live:
         if rep["unwound"] or rep["leftover"]:
@@ -1113,6 +1124,9 @@ def _confirm(case, gname, model, ctx, env, goal_index=None, exc=None, tb=None, c
             rp = replay_case(case, values, rand, cfg.get("replay_slack", 1e-7))
     except Exception as e:  # harness trouble during replay
         viol["detail"] = "replay harness error: %r" % (e,)
+        if "did not return within" in str(e):
+            # e.g. rejection sampling from a set that is empty for the witness: nothing can be concluded from it
+            viol["replay_hung"] = True
         return viol
     if exc is not None:
         if rp["exc"] is not None and type(rp["exc"]).__name__ == type(exc).__name__:
